@@ -1,14 +1,4 @@
 #!/bin/bash
-# usage: tools/seedrun.sh <seeded-dir> <check ids...> — apply a seeded change to /repo, run the named checks, undo it.
-# Never leaves /repo modified: refuses to start on a dirty tree and restores it with git checkout.
-d=$(readlink -f "$1"); shift
-[ -z "$(git -C /repo status --porcelain)" ] || { echo "/repo is dirty; refusing"; exit 2; }
-git -C /repo apply "$d/patch.diff" || exit 2
-for c in "$@"; do
-  out=$(/verif/check $c 2>&1); rc=$?
-  echo "== $c rc=$rc"; echo "$out" | grep -A1 "^VIOLATION" | cut -c1-400 | head -12; echo "$out" | tail -1
-done
-git -C /repo checkout -- .
-[ -z "$(git -C /repo status --porcelain)" ] || echo "WARNING: /repo still dirty"
-# evidence/ must describe /repo itself: re-run the same checks on the restored tree
-for c in "$@"; do /verif/check $c 2>&1 | tail -1; done
+# usage: seedrun.sh <patch.diff> <Cnn>...   — scratch-copy run of the given checks against a patch (never touches /repo)
+p=$1; shift
+for c in "$@"; do SCRATCH_PATCH=$p /verif/selftest/scratch.sh sr-$c-$$ /verif/check $c 2>&1 | grep -E '^VIOLATION|^  |^\[C' | cut -c1-260 | head -12; done
